@@ -23,6 +23,8 @@ RULE = (
     "batch_size in {1,2,3,ncand,ncand+1,ncand+5} x seed. Distinct = case "
     "hash. Non-trivial = at least 2 candidates and (batch_size >= 2 or cold "
     "start or duplicated candidate rows or batch_size > n_candidates).")
+RULE += (" Further generated dimensions (added while closing seeded "
+         "changes): " + 'alternative constructor configurations; unsorted / repeated index candidates; list and int-typed containers; large-scale sample weights; n_jobs incl. the default -1; GaussianNB zero-variance region excluded by construction (counted)' + ".")
 ASSUMPTIONS = [
     "reference candidate set is computed from the case (None entries of yid) "
     "without using skactiveml",
